@@ -10,7 +10,7 @@ TRUSTED = TRUSTED_BASE
 ASSUMPTIONS = _A + ['RUNTIME BEHAVIOUR NOT MODELLED: that the hidc process is a function of (source, options) is observed by compiling in '
                     'fresh interpreters under different PYTHONHASHSEED values, not proved',
                     'behaviour across stack sizes and word sizes is validated on generated programs, not proved']
-RULE = ('(a) each program compiled in 6 fresh interpreter processes with different hash seeds and in different orders (forwards, backwards, shuffled): byte-identical output; (b) programs that '
+RULE = ('(a) each program compiled in 6 fresh interpreter processes with different hash seeds, interpreter modes (default, -O, -OO, -X dev) and in different orders (forwards, backwards, shuffled): byte-identical output; (b) programs that '
         'win at stack size S behave identically at S+1, S+7, 4S; outputs at different -s differ only in the .zero directive; (c) programs '
         'whose reference behaviour is the same at w and w\' behave the same compiled for both; (d) --lint either rejects or leaves the '
         'output byte-identical; non-trivial = program for which all comparisons were made and agree')
@@ -78,9 +78,12 @@ def run(ctx):
     for _ in seeds[2:]:
         o = fwd[:]; ctx.rng.shuffle(o); orders.append(o)
     procs = []
-    for hs in seeds:
+    # the interpreter's own mode is process state too: assertions and docstrings stripped (-O, -OO), development mode
+    pyflags = ([], ['-O'], ['-OO'], ['-X', 'dev'], ['-O'], [])
+    for hs, fl in zip(seeds, pyflags):
         env = dict(os.environ, PYTHONHASHSEED=hs)
-        procs.append(subprocess.Popen(['/venv/bin/python', '-c', CHILD % os.path.join(hidlib.VERIF, 'harness')], stdin=subprocess.PIPE,
+        env.pop('PYTHONOPTIMIZE', None)
+        procs.append(subprocess.Popen(['/venv/bin/python'] + fl + ['-c', CHILD % os.path.join(hidlib.VERIF, 'harness')], stdin=subprocess.PIPE,
                                       stdout=subprocess.PIPE, text=True, env=env))
     outs = []
     for p, order in zip(procs, orders):
@@ -89,7 +92,7 @@ def run(ctx):
     nondet = [i for i in range(len(items)) if len({o[i] if i < len(o) else None for o in outs}) != 1]
     ctx.stats['determinism'] = dict(compilations=len(items), processes=len(seeds), nondeterministic=len(nondet))
     for i in nondet[:2]:
-        ctx.violations.append(dict(what='compiler output differs between interpreter processes (hash seed, or what the process compiled before)', kind='NONDET',
+        ctx.violations.append(dict(what='compiler output differs between interpreter processes (hash seed, interpreter mode -O / -OO / -X dev, or what the process compiled before)', kind='NONDET',
                                    source=items[i][1], args=[], config=items[i][0]))
     ctx.say('determinism: %d compilations x 6 processes, %d differ' % (len(items), len(nondet)))
     # (b) stack size: textual difference only in .zero, and same behaviour above the minimum
